@@ -126,6 +126,7 @@ def plan(tier, seed, kf_ids):
     if inv["cfg_debug_assertions"] or inv["unsafe"]:
         notes.append("source inventory found profile-conditional or unsafe code that the argument does not cover: %s %s"
                      % (inv["cfg_debug_assertions"], inv["unsafe"]))
+    c.interleave(jobs)
     return {
         "engine_m": ["mul128", "widen"],
         "feature": "c11",
